@@ -135,6 +135,9 @@ pub fn classify(m: &RLib, ctx: &mut crate::engine::Ctx) {
     let shapes = || m.cells.iter().flat_map(|c| c.shapes.iter());
     let abs_geoms = || m.cells.iter().filter_map(|c| c.abs.as_ref()).flat_map(|a| a.ports.iter().flat_map(|p| p.shapes.iter().flat_map(|s| s.1.iter())).chain(a.blockages.iter().flat_map(|b| b.1.iter())));
     let closed = |g: &RGeom| matches!(g, RGeom::Poly(v) if v.len() > 3 && v.first() == v.last());
+    if m.cells.iter().any(|c| m.cells.iter().any(|d| d.name != c.name && d.name.eq_ignore_ascii_case(&c.name))) {
+        ctx.label("cell names that differ only in case");
+    }
     if shapes().any(|s| closed(&s.geom)) || abs_geoms().any(closed) || m.cells.iter().any(|c| c.abs.as_ref().map(|a| a.outline.len() > 4).unwrap_or(false)) {
         ctx.label("polygon or outline repeating its first vertex");
     }
@@ -379,6 +382,7 @@ pub fn gen_layers(src: &mut Src, share_numbers: bool) -> Vec<RLayer> {
 pub fn gen_rawlib(src: &mut Src, o: &RawGenOpts) -> RLib {
     let layers = gen_layers(src, o.shared_purpose_numbers);
     let nc = src.usize_in(1, o.max_cells);
+    let case_twins = src.prob(1, 6);
     let mut cells: Vec<RCell> = vec![];
     for ci in 0..nc {
         let abs_only = o.abstracts && o.abs_only_cells && ci > 0 && src.prob(1, 6);
@@ -465,7 +469,14 @@ pub fn gen_rawlib(src: &mut Src, o: &RawGenOpts) -> RLib {
             None
         };
         // library cell names run long (foundry kits prefix everything): some beyond 32 characters
-        let name = if src.prob(1, 6) { format!("cell{}_sky130_fd_sc_hd__lpflow_inputisolatch_1", ci) } else { format!("cell{}", ci) };
+        // ... and names are case-sensitive: `cell0`, `CELL0` and `Cell0` are three cells
+        let name = if case_twins && ci % 2 == 1 {
+            if ci % 4 == 1 { format!("CELL{}", ci - 1) } else { format!("Cell{}", ci - 3) }
+        } else if !case_twins && src.prob(1, 6) {
+            format!("cell{}_sky130_fd_sc_hd__lpflow_inputisolatch_1", ci)
+        } else {
+            format!("cell{}", ci)
+        };
         cells.push(RCell { name, has_layout, shapes, insts, annotations, abs });
     }
     let mut listing: Vec<usize> = (0..nc).collect();
